@@ -28,7 +28,7 @@ func calleeName(c ssa.CallInstruction) string {
 		if o := f.Origin(); o != nil {
 			f = o
 		}
-		return shortName(f.String())
+		return canonName(shortName(f.String()))
 	}
 	// builtin
 	if b, ok := cc.Value.(*ssa.Builtin); ok {
@@ -191,6 +191,41 @@ func originsOpt(v ssa.Value, keepMakeIface bool) []ssa.Value {
 			} else {
 				walk(x.X)
 			}
+		case *ssa.Call:
+			// builtin max/min select one of their arguments
+			if b, ok := x.Call.Value.(*ssa.Builtin); ok && (b.Name() == "max" || b.Name() == "min") {
+				for _, a := range x.Call.Args {
+					walk(a)
+				}
+				return
+			}
+			if more := interprocOrigins(x, nil, len(seen)); more != nil {
+				for _, m := range more {
+					walk(m)
+				}
+				return
+			}
+			out = append(out, v)
+		case *ssa.Extract:
+			if c, ok := x.Tuple.(*ssa.Call); ok {
+				if more := interprocOrigins(c, x, len(seen)); more != nil {
+					for _, m := range more {
+						walk(m)
+					}
+					return
+				}
+			}
+			out = append(out, v)
+		case *ssa.Parameter:
+			if more := paramOrigins(x, len(seen)); more != nil {
+				// keep the parameter itself as an origin too (matchers by parameter name still apply)
+				out = append(out, v)
+				for _, m := range more {
+					walk(m)
+				}
+				return
+			}
+			out = append(out, v)
 		case *ssa.UnOp:
 			if x.Op == token.MUL {
 				// `p.f = v; ... p.f` within one block: the field holds v
@@ -557,6 +592,14 @@ func (p FP) holds(f Fact) bool {
 		return f.Op == token.ILLEGAL && f.Truth == p.Truth && p.B(f.L)
 	}
 	if f.Op == token.ILLEGAL {
+		// a true error predicate (os.IsNotExist(err), errors.Is(err, x), ...) entails err != nil
+		if p.Op == token.NEQ && f.Truth {
+			if call, ok := f.L.(*ssa.Call); ok && errPredicates[calleeName(call)] && len(call.Call.Args) > 0 {
+				if p.L(call.Call.Args[0]) && p.R(ssa.NewConst(nil, call.Call.Args[0].Type())) {
+					return true
+				}
+			}
+		}
 		return false
 	}
 	if implies(f.Op, p.Op) && p.L(f.L) && p.R(f.R) {
@@ -575,8 +618,22 @@ type Edge struct {
 }
 
 // factEdges returns every If out-edge in fn on which pattern p holds.
-func factEdges(fn *ssa.Function, p FP) []Edge {
+func factEdges(fn *ssa.Function, p FP) []Edge { return factEdgesAlts(fn, 0, p) }
+
+// factEdgesAlts returns every If out-edge of fn on which one of the
+// alternative patterns is established: directly by the branch condition, by a
+// conjunct of a short-circuit boolean, by a disjunction all of whose members
+// are alternatives, or inside a virtually inlined helper whose result is tested.
+func factEdgesAlts(fn *ssa.Function, depth int, alts ...FP) []Edge {
 	var out []Edge
+	anyHolds := func(f Fact) bool {
+		for _, p := range alts {
+			if p.holds(f) {
+				return true
+			}
+		}
+		return false
+	}
 	for _, b := range fn.Blocks {
 		if len(b.Instrs) == 0 {
 			continue
@@ -586,12 +643,167 @@ func factEdges(fn *ssa.Function, p FP) []Edge {
 			continue
 		}
 		for e := 0; e < 2; e++ {
-			if p.holds(edgeFact(ifi, e)) {
+			f := edgeFact(ifi, e)
+			if anyHolds(f) {
+				out = append(out, Edge{b, e})
+				continue
+			}
+			if f.Op != token.ILLEGAL {
+				// err == nil on the result of a virtually inlined helper
+				if f.Op == token.EQL && isNilConst(f.R) {
+					if h, isErr := helperOfResult(f.L); h != nil && isErr {
+						if calleeEstablishes(h, true, true, alts, depth) {
+							out = append(out, Edge{b, e})
+						}
+					}
+				}
+				// (non-)nil pointer result of a virtually inlined helper
+				if (f.Op == token.EQL || f.Op == token.NEQ) && isNilConst(f.R) && !isErrorType(f.L.Type()) {
+					if call, ok := f.L.(*ssa.Call); ok {
+						if h := call.Call.StaticCallee(); h != nil && calleeEstablishesNil(h, f.Op == token.EQL, alts, depth) {
+							out = append(out, Edge{b, e})
+						}
+					}
+				}
+				continue
+			}
+			// boolean built by && / ||
+			conj, disj := boolStructure(f.L, f.Truth, 0)
+			hit := false
+			for _, cf := range conj {
+				if anyHolds(cf) {
+					hit = true
+				}
+			}
+			if !hit && len(disj) > 0 {
+				all := true
+				for _, df := range disj {
+					if !anyHolds(df) {
+						all = false
+					}
+				}
+				hit = all
+			}
+			if !hit {
+				// boolean result of a virtually inlined helper
+				if call, ok := f.L.(*ssa.Call); ok {
+					if h := call.Call.StaticCallee(); h != nil {
+						hit = calleeEstablishes(h, false, f.Truth, alts, depth)
+					}
+				}
+			}
+			if hit {
 				out = append(out, Edge{b, e})
 			}
 		}
 	}
 	return out
+}
+
+// helperOfResult: v is the error result of a call to a virtually inlined helper.
+func helperOfResult(v ssa.Value) (*ssa.Function, bool) {
+	for _, o := range errOriginsLocal(v) {
+		switch x := o.(type) {
+		case *ssa.Call:
+			if h := x.Call.StaticCallee(); isNewHelper(h) && errResultIndex(x.Call.Signature()) == 0 && x.Call.Signature().Results().Len() == 1 {
+				return h, true
+			}
+		case *ssa.Extract:
+			if c, ok := x.Tuple.(*ssa.Call); ok {
+				if h := c.Call.StaticCallee(); isNewHelper(h) && x.Index == errResultIndex(c.Call.Signature()) {
+					return h, true
+				}
+			}
+		}
+	}
+	return nil, false
+}
+
+// errOriginsLocal resolves v through in-block cell stores only (no interprocedural expansion).
+func errOriginsLocal(v ssa.Value) []ssa.Value {
+	if u, ok := v.(*ssa.UnOp); ok && u.Op == token.MUL {
+		if cell := cellOf(u.X); cell != nil && u.Block() != nil {
+			blk := u.Block()
+			for k := instrIndex(u) - 1; k >= 0; k-- {
+				if s, ok := blk.Instrs[k].(*ssa.Store); ok && cellOf(s.Addr) == cell {
+					return []ssa.Value{s.Val}
+				}
+			}
+		}
+	}
+	return []ssa.Value{v}
+}
+
+// boolStructure decomposes a boolean value known to be `truth` into facts:
+// conj (all hold) or disj (at least one holds).  It understands the phi shapes
+// go/ssa produces for `A && B` and `A || B`.
+func boolStructure(v ssa.Value, truth bool, depth int) (conj, disj []Fact) {
+	if depth > 3 {
+		return nil, nil
+	}
+	atom := func(x ssa.Value, t bool) Fact {
+		for {
+			if u, ok := x.(*ssa.UnOp); ok && u.Op == token.NOT {
+				x, t = u.X, !t
+				continue
+			}
+			break
+		}
+		if b, ok := x.(*ssa.BinOp); ok && negOp(b.Op) != token.ILLEGAL {
+			op := b.Op
+			if !t {
+				op = negOp(op)
+			}
+			return Fact{L: b.X, R: b.Y, Op: op}
+		}
+		return Fact{L: x, Truth: t}
+	}
+	phi, ok := v.(*ssa.Phi)
+	if !ok || len(phi.Edges) != 2 {
+		return nil, nil
+	}
+	for i := 0; i < 2; i++ {
+		k, isK := phi.Edges[i].(*ssa.Const)
+		if !isK || k.Value == nil {
+			continue
+		}
+		kv := k.Value.String() == "true"
+		other := phi.Edges[1-i]
+		pred := phi.Block().Preds[i]
+		ifi, isIf := lastInstr(pred).(*ssa.If)
+		if !isIf {
+			continue
+		}
+		// which edge of pred's If leads to the phi block
+		si := -1
+		for j, s := range pred.Succs {
+			if s == phi.Block() {
+				si = j
+			}
+		}
+		if si < 0 {
+			continue
+		}
+		a := edgeFact(ifi, si)   // fact under which the constant was selected
+		na := edgeFact(ifi, 1-si) // fact under which `other` was evaluated
+		if !kv {
+			// A && B : const false selected when !A
+			if truth {
+				conj = append(conj, na, atom(other, true))
+			} else {
+				disj = append(disj, a, atom(other, false))
+			}
+		} else {
+			// A || B : const true selected when A
+			if truth {
+				disj = append(disj, a, atom(other, true))
+			} else {
+				conj = append(conj, na, atom(other, false))
+			}
+		}
+		return conj, disj
+	}
+	return nil, nil
 }
 
 // reachable returns the blocks reachable from `from` (the entry block when
@@ -675,16 +887,46 @@ func instrIndex(in ssa.Instruction) int {
 // once every edge on which one of the alternative patterns holds is removed.
 // It returns the number of guard edges found (0 = guard missing).
 func guardedBy(site ssa.Instruction, alts ...FP) (ok bool, nEdges int) {
+	return guardedByDepth(site, 0, alts...)
+}
+
+func guardedByDepth(site ssa.Instruction, depth int, alts ...FP) (ok bool, nEdges int) {
 	fn := site.Parent()
-	var cut []Edge
-	for _, p := range alts {
-		cut = append(cut, factEdges(fn, p)...)
-	}
+	cut := factEdgesAlts(fn, depth, alts...)
 	if len(cut) == 0 {
-		return false, 0
+		// the site may live in a virtually inlined helper: the guard can then sit at every call site
+		return guardedAtCallSites(site, depth, alts...)
 	}
 	r := reachable(fn, nil, cut)
-	return !r[site.Block()], len(cut)
+	if !r[site.Block()] {
+		return true, len(cut)
+	}
+	if ok2, n2 := guardedAtCallSites(site, depth, alts...); ok2 {
+		return true, len(cut) + n2
+	}
+	return false, len(cut)
+}
+
+// guardedAtCallSites: site lies in a new helper; it is guarded if every
+// production call site of the helper is guarded in its caller.
+func guardedAtCallSites(site ssa.Instruction, depth int, alts ...FP) (bool, int) {
+	fn := site.Parent()
+	if depth > 2 || !isNewHelper(fn) {
+		return false, 0
+	}
+	sites := callSitesOf(fn)
+	if len(sites) == 0 {
+		return false, 0
+	}
+	n := 0
+	for _, cs := range sites {
+		ok, k := guardedByDepth(cs, depth+1, alts...)
+		if !(k > 0 && ok) {
+			return false, n
+		}
+		n += k
+	}
+	return true, n
 }
 
 // returns lists the Return instructions of fn (excluding the recover block).
